@@ -5,7 +5,7 @@
    (truncate in place). *)
 From Coq Require Import List NArith Bool Arith String.
 Import ListNotations.
-From SygmaV Require Import Model.C18 Proofs.C18 Model.C18Codec Proofs.C18Codec.
+From SygmaV Require Import Model.C18 Proofs.C18 Proofs.C18Hist Model.C18Codec Proofs.C18Codec.
 
 (* For EVERY trace of the atomic-replace shape, every previous file-system state, every contents and
    EVERY crash point (between any two operations and after any number of bytes of any write) a reader
@@ -95,6 +95,72 @@ Theorem C18_sweep_model_spec : forall s tmp t old d k, N.eqb tmp t = false -> s 
 Proof. exact sweep_model_spec. Qed.
 Print Assumptions C18_sweep_model_spec.
 
+(* ---- histories of store operations ------------------------------------------------------------
+   For EVERY history of store attempts on one target - each attempt of the repaired protocol shape (the
+   temporary file is created fresh: a new name with O_EXCL or an old name with O_TRUNC) completes, has
+   its write fail after any number of bytes, or dies at ANY point (between two operations or after any
+   number of bytes of the write, on the normal or on the error path) - started in ANY file-system
+   state (leftovers of earlier crashed attempts present), with any temporary names different from the
+   target (reused or not): after every attempt a reader finds the complete value of that attempt or -
+   only if the attempt did not complete - exactly what it found before. *)
+Theorem C18_history_safe : forall t h s l, tmps_ok t h = true -> hist_run t s h l ->
+  steps_ok (s t) (spec_of h) (map (fun x : fs => x t) l).
+Proof. exact history_safe. Qed.
+Print Assumptions C18_history_safe.
+
+(* ... so after the whole history a read returns the last COMPLETED store's value or the complete value
+   of an unfinished store after it; a history ending with a completed store reads exactly its value *)
+Theorem C18_history_last : forall t h s l, tmps_ok t h = true -> hist_run t s h l ->
+  In (last (map (fun x : fs => x t) l) (s t)) (allowed [s t] (spec_of h)).
+Proof. exact history_last. Qed.
+Print Assumptions C18_history_last.
+
+Theorem C18_history_completed : forall t h a s l, tmps_ok t (h ++ [a]) = true -> a_fate a = Done ->
+  hist_run t s (h ++ [a]) l -> last (map (fun x : fs => x t) l) (s t) = Some (a_data a).
+Proof. exact history_completed. Qed.
+Print Assumptions C18_history_completed.
+
+(* the judge of observed histories (on value numbers) implies the specification, and the model passes it *)
+Theorem C18_hist_judge_sound : forall val l p, hist_ok (RVal p) l = true ->
+  steps_ok (Some (val p)) (spec_of_obs val l) (map (fun x : N * fate * reading => decode val (snd x)) l).
+Proof. exact hist_ok_sound. Qed.
+Print Assumptions C18_hist_judge_sound.
+
+Theorem C18_hist_judge_model : forall val t h s l ids p, tmps_ok t h = true -> hist_run t s h l ->
+  s t = Some (val p) -> map a_data h = map val ids ->
+  exists rs, map (decode val) rs = map (fun x : fs => x t) l /\
+             hist_ok (RVal p) (combine (combine ids (map a_fate h)) rs) = true.
+Proof. exact hist_ok_model. Qed.
+Print Assumptions C18_hist_judge_model.
+
+(* the recogniser [determined] used on observed traces: what such a trace leaves in the target does not
+   depend on any other file of the directory; the repaired protocol passes it *)
+Theorem C18_leftovers_irrelevant : forall t tr s1 s2, determined [t] tr = true -> s1 t = s2 t ->
+  run s1 tr t = run s2 tr t.
+Proof. exact leftovers_irrelevant. Qed.
+Print Assumptions C18_leftovers_irrelevant.
+
+Theorem C18_store_fresh_determined : forall ex tmp t d, determined [t] (store_fresh ex tmp t d) = true.
+Proof. exact store_fresh_determined. Qed.
+Print Assumptions C18_store_fresh_determined.
+
+(* a protocol that REUSES a temporary file without truncating it is crash-atomic store by store, yet
+   unsafe over histories: a store of d1 that dies after writing its temporary file, followed by a
+   healthy store of d2, installs d2 followed by the tail of d1 - for all d1, d2 *)
+Theorem C18_keep_reuse_mixed : forall s tmp t d1 d2, N.eqb tmp t = false -> s tmp = None ->
+  exists s1, crashed s (store_keep tmp t d1) s1 /\ s1 t = s t /\
+             run s1 (store_keep tmp t d2) t = Some (d2 ++ skipn (List.length d2) d1).
+Proof. exact keep_reuse_mixed. Qed.
+Print Assumptions C18_keep_reuse_mixed.
+
+Theorem C18_keep_reuse_unsafe_refuted :
+  exists s t tmp d1 d2 s1, crashed s (store_keep tmp t d1) s1 /\
+    run s1 (store_keep tmp t d2) t <> Some d2 /\ run s1 (store_keep tmp t d2) t <> s t /\
+    atomic_replace_shape t (store_keep tmp t d2) = true /\
+    determined [t] (store_keep tmp t d2) = false.
+Proof. exact keep_reuse_unsafe_refuted. Qed.
+Print Assumptions C18_keep_reuse_unsafe_refuted.
+
 (* Codec of the topology file (partial: the key-share JSON of third-party types is differential only):
    for EVERY topology whose peer ids and addresses contain no double quote or backslash, parsing the
    printed document gives the topology back. *)
@@ -122,7 +188,18 @@ Example C18_nonvacuous :
   crash_safe_b 1 s 0%N (store_old 0%N [4; 5]%N) = false /\
   run s (store_new_failed 7%N [4; 5]%N 1) 0%N = Some [1; 2; 3]%N /\
   sweep_model 2 = [Old; Old; New] /\
+  tmps_ok 0%N [mkAttempt true 7%N [4; 5; 6; 7]%N Died; mkAttempt false 7%N [8]%N Done] = true /\
+  hist_run 0%N s [mkAttempt true 7%N [4; 5; 6; 7]%N Died; mkAttempt false 7%N [8]%N Done]
+    [apply (apply s (OpenExcl 7%N)) (Write 7%N [4; 5; 6; 7]%N);
+     run (apply (apply s (OpenExcl 7%N)) (Write 7%N [4; 5; 6; 7]%N)) (store_fresh false 7%N 0%N [8]%N)] /\
+  run (apply (apply s (OpenExcl 7%N)) (Write 7%N [4; 5; 6; 7]%N)) (store_fresh false 7%N 0%N [8]%N) 0%N = Some [8]%N /\
+  run (apply (apply s (OpenKeep 7%N)) (WriteAt 7%N 0 [4; 5; 6; 7]%N)) (store_keep 7%N 0%N [8]%N) 0%N = Some [8; 5; 6; 7]%N /\
+  hist_ok (RVal 0) [(1%N, Died, RVal 0%N); (2%N, Done, RVal 2%N)] = true /\
+  hist_ok (RVal 0) [(1%N, Died, RVal 0%N); (2%N, Done, ROther)] = false /\
   safe_topo (mkTopo [mkPeer "QmA"%string ["/dns4/r1/tcp/9000"%string]; mkPeer "QmB"%string []] 2) = true /\
   parse_topo (print_topo (mkTopo [mkPeer "QmA"%string ["/dns4/r1/tcp/9000"%string]; mkPeer "QmB"%string []] 2))
   = Some (mkTopo [mkPeer "QmA"%string ["/dns4/r1/tcp/9000"%string]; mkPeer "QmB"%string []] 2).
-Proof. vm_compute. repeat split. Qed.
+Proof.
+  cbv zeta. repeat match goal with |- _ /\ _ => split end; try (vm_compute; reflexivity).
+  repeat constructor.
+Qed.
